@@ -111,7 +111,7 @@ func TestC23(t *testing.T) {
 		r.Count("src=" + src)
 		desc := map[string]any{"source": src, "steps": steps, "first_redis_divergence": first}
 		tags := map[string]any{"first_div": first, "n_div": ndiv, "src": src}
-		r.Add(sh.L(items), desc, tags, ncreatefail > 0 || nfail >= 3)
+		r.Add(sh.CaseTerm(items), desc, tags, ncreatefail > 0 || nfail >= 3)
 	}
 
 	for _, ops := range corpus() {
